@@ -246,7 +246,7 @@ func TestC05(t *testing.T) {
 		t.Skip()
 	}
 
-	kit.SetChecks(1_200, 10_000)
+	kit.SetChecks(2_000, 10_000)
 	rapid.Check(t, func(rt *rapid.T) {
 		var c c05Case
 		c.Parallel = rapid.Bool().Draw(rt, "parallel")
